@@ -3135,6 +3135,51 @@ func c15r26(c *Ctx, r *Report) {
 	r.floor("stores into Terminal.pointerLen in Terminal.Loop", n, 1)
 }
 
+// c15r27: header lines are drawn by the same routine as the items (printHighlighted), so their rendition depends
+// on Terminal.wrap, Terminal.multiLine and Terminal.hscroll too. toggle-wrap asks for the header to be redrawn;
+// its siblings have to as well (D106: toggle-multi-line and toggle-hscroll requested reqList only: a long header
+// line stayed cut at the other end, a header record with an embedded newline stayed in its old form).
+func c15r27(c *Ctx, r *Report) {
+	l := c.L
+	r.rule("C15-R27", "E (sibling handlers: a rendering mode change redraws the header)", "P1",
+		"in Terminal.Loop and its closures, every path from a store into Terminal.wrap, Terminal.multiLine or Terminal.hscroll to a return passes a req(...) call that includes reqHeader (or reqFullRedraw)",
+		"after toggle-hscroll / toggle-multi-line the header rows keep the rendition of the previous mode: they are not what a redraw in the current state shows")
+	loop := l.Fn("fzf", "(*Terminal).Loop")
+	kH := l.Const("fzf", "reqHeader")
+	kF := l.Const("fzf", "reqFullRedraw")
+	fields := map[*types.Var]bool{}
+	for _, nm := range []string{"wrap", "multiLine", "hscroll"} {
+		if f := l.Field("fzf", "Terminal", nm); f != nil {
+			fields[f] = true
+		}
+	}
+	if loop == nil || kH == nil || kF == nil || len(fields) != 3 {
+		r.unest("anchors", token.NoPos, nil, "anchors Terminal.Loop / reqHeader / reqFullRedraw / wrap / multiLine / hscroll", "cannot resolve")
+		return
+	}
+	vh, _ := constantInt64(kH)
+	vf, _ := constantInt64(kF)
+	isReq := func(in ssa.Instruction) bool { return requestsEvent(in, vh) || requestsEvent(in, vf) }
+	n := 0
+	for _, fn := range withClosures(loop) {
+		eachInstr(fn, func(in ssa.Instruction) {
+			st, ok := in.(*ssa.Store)
+			if !ok {
+				return
+			}
+			f, _ := fieldOf(st.Addr)
+			if f == nil || !fields[f] {
+				return
+			}
+			n++
+			hit := pathAvoiding(st, isReturn, isReq, nil)
+			r.check(hit == nil, fmt.Sprintf("%s:change of Terminal.%s redraws the header", relName(rootFn(fn)), f.Name()), st.Pos(), fn,
+				"req(..., reqHeader) follows", "Terminal."+f.Name()+" changes and the handler returns without requesting the header to be redrawn")
+		})
+	}
+	r.floor("stores into Terminal.wrap / multiLine / hscroll in Terminal.Loop", n, 3)
+}
+
 func round10(c *Ctx, r *Report, prop string) {
 	switch prop {
 	case "C01":
@@ -3191,6 +3236,7 @@ func round10(c *Ctx, r *Report, prop string) {
 		c15r24(c, r)
 		c15r25(c, r)
 		c15r26(c, r)
+		c15r27(c, r)
 	case "C17":
 		c17r28(c, r)
 		c17r29(c, r)
